@@ -218,6 +218,11 @@ _G_FAIL = dgen(NEPs="{1, 2}", GKinds='{"ok", "http", "http_big", "http_alt", "re
                BootKinds='{"up", "sick"}')
 _G_FAIL_NATIVE = dgen(NEPs="{1, 2}", GKinds='{"http", "http_alt", "refuse", "reset_pre"}', Balancers='{"priority"}',
                       Routes='{"anthropic", "anthropic_stream"}', EpTypes='{"vllm"}')
+# translator scope of the statistics (C19): translated and passthrough Anthropic routes over attempt outcomes
+_G_TRSTATS = dgen(GKinds='{"ok", "http", "refuse", "reset_pre", "reset_after"}', Balancers='{"round-robin"}',
+                  Routes='{"anthropic", "anthropic_stream"}')
+_G_TRSTATS_NATIVE = dgen(GKinds='{"ok", "http", "refuse", "reset_after"}', Balancers='{"round-robin"}',
+                         Routes='{"anthropic", "anthropic_stream"}', EpTypes='{"vllm"}')
 PROPS["C05"] = {
     "rule": _DISPATCH_RULE + " For C05 the grid is failure cause (no healthy endpoint, unknown model, all refuse, all "
             "reset, backend 5xx) x route family (proxy, provider, Anthropic buffered, Anthropic streaming) x engine.",
@@ -232,7 +237,8 @@ PROPS["C19"] = {
             "all gauges/counters are read at quiescence.",
     "exhaustive": False,
     "assumptions": ["quiescence = all clients returned and the collector's numbers unchanged for 150 ms"],
-    "parts": [dpart([_G_SINGLE2, _G_BURST, _G_BREAKER], [_G_SINGLE3, _G_BURST, _G_BREAKER, _G_TWOSTEP, _G_FAIL], 8000),
+    "parts": [dpart([_G_SINGLE2, _G_BURST, _G_BREAKER, _G_TRSTATS, _G_TRSTATS_NATIVE],
+                    [_G_SINGLE3, _G_BURST, _G_BREAKER, _G_TWOSTEP, _G_FAIL, _G_TRSTATS, _G_TRSTATS_NATIVE], 8000),
               dict(dpart([_G_PANIC], [_G_PANIC]), name="panic", mc=[], env={"VERIF_PAR": "1"})],
 }
 
